@@ -76,16 +76,27 @@ impl<'a> GeneratorState<'a> {
             ExprType::Immediate(l) => {
                 match right {
                     ExprType::Immediate(r) => {
-                        match op {
-                            Operation::Add(_) => return Ok(ExprType::Immediate(l + r)),
-                            Operation::Sub(_) => return Ok(ExprType::Immediate(l - r)),
-                            Operation::And(_) => return Ok(ExprType::Immediate(l & r)),
-                            Operation::Or(_) => return Ok(ExprType::Immediate(l | r)),
-                            Operation::Xor(_) => return Ok(ExprType::Immediate(l ^ r)),
-                            Operation::Mul(_) => return Ok(ExprType::Immediate(l * r)),
-                            Operation::Div(_) => return Ok(ExprType::Immediate(l / r)),
+                        // Constant folding: results that do not fit into 32 bits (and divisions
+                        // by zero) are errors
+                        let folded = match op {
+                            Operation::Add(_) => l.checked_add(*r),
+                            Operation::Sub(_) => l.checked_sub(*r),
+                            Operation::And(_) => Some(l & r),
+                            Operation::Or(_) => Some(l | r),
+                            Operation::Xor(_) => Some(l ^ r),
+                            Operation::Mul(_) => l.checked_mul(*r),
+                            Operation::Div(_) => {
+                                if *r == 0 {
+                                    return Err(self.compiler_state.syntax_error("Division by zero", pos));
+                                }
+                                l.checked_div(*r)
+                            },
                             _ => { return Err(self.compiler_state.compiler_error("Arithmetics is partially implemented", pos)); },
-                        } 
+                        };
+                        return match folded {
+                            Some(v) => Ok(ExprType::Immediate(v)),
+                            None => Err(self.compiler_state.syntax_error("Constant expression overflow", pos)),
+                        };
                     },
                     _ => {
                         if acc_in_use { self.sasm(PHA)?; }
@@ -325,9 +336,18 @@ impl<'a> GeneratorState<'a> {
             ExprType::Immediate(l) => {
                 match right {
                     ExprType::Immediate(r) => {
+                        if !(0..32).contains(r) {
+                            return Err(self.compiler_state.syntax_error("Constant expression overflow", pos));
+                        }
                         match op {
                             Operation::Brs(_) => return Ok(ExprType::Immediate(l >> r)),
-                            Operation::Bls(_) => return Ok(ExprType::Immediate(l << r)),
+                            Operation::Bls(_) => {
+                                let wide = (*l as i64) << r;
+                                if wide < i32::MIN as i64 || wide > i32::MAX as i64 {
+                                    return Err(self.compiler_state.syntax_error("Constant expression overflow", pos));
+                                }
+                                return Ok(ExprType::Immediate(wide as i32))
+                            },
                             _ => unreachable!(),
                         } 
                     },
